@@ -14,7 +14,7 @@ every run against every `MPush` is such a history).  `K.Sound k0 ports spec` (Le
 This is the assume/guarantee form: the guarantee towards each downstream is the assumption of the
 combinator sitting there, so pipelines follow by induction (`sound_comp`).
 -/
-import HvPush.Lemmas.Single
+import HvPush.Lemmas.Drain
 namespace HvPush
 open Prog
 
@@ -61,7 +61,7 @@ theorem aux_simFM (g : α → Option β) : SimInv1 (filterMapC g) (aux_invFM g) 
     contract preserved, delivered = `filterMap g` of the inputs, in order. -/
 theorem filterMap_sound (g : α → Option β) :
     (filterMapC g).Sound () [0] (fun _ ins outs => outs = ins.filterMap g) :=
-  (aux_simFM g).sound ⟨by simp, rfl, by simp, rfl⟩ (fun pu k pd su sd h hc => ⟨by rw [h.2.1]; exact hc, h.2.2.2⟩)
+  (aux_simFM g).sound ⟨by simp, rfl, by simp, rfl⟩ (fun pu k pd su sd h _ hc => ⟨by rw [h.2.1]; exact hc, h.2.2.2⟩)
 
 theorem map_sound (f : α → β) : (mapC f).Sound () [0] (fun _ ins outs => outs = ins.map f) := by
   have := filterMap_sound (fun x => some (f x))
@@ -75,5 +75,552 @@ theorem filter_sound (p : α → Bool) : (filterC p).Sound () [0] (fun _ ins out
     | cons x xs ih => cases h : p x <;> simp [List.filterMap_cons, List.filter_cons, h, ih]
   have := filterMap_sound (fun x => if p x then some x else none)
   simpa only [filterC, e] using this
+
+/-! ## FlatMap / Flatten -/
+
+def aux_invFlat (f : α → List β) : Inv1T (List β) α β := fun pu buf pd su sd =>
+  (pd.started = true → pu.started = true) ∧ pd.closed = pu.closed ∧
+  (pu.ready = true → pu.started = false → pd.ready = true ∧ buf = []) ∧
+  (pd.started = true → buf = []) ∧ sd ++ buf = su.flatMap f
+
+theorem aux_started_false {pu pd : PSt} (h1 : pd.started = true → pu.started = true) (hs : pu.started = false) :
+    pd.started = false := by
+  cases h : pd.started
+  · rfl
+  · rw [h1 h] at hs; cases hs
+
+theorem aux_sent_ok {pd : PSt} {sent rest buf : List β} (h : pd.started = true → buf = []) (hb : buf = sent ++ rest) :
+    sent = [] ∨ pd.started = false := by
+  cases hs : pd.started
+  · exact Or.inr rfl
+  · have := h hs; subst this; left
+    cases sent with
+    | nil => rfl
+    | cons _ _ => cases hb
+
+theorem aux_rest_nil {sent rest : List β} (h : [] = sent ++ rest) : rest = [] := by
+  cases sent with
+  | nil => simpa using h.symm
+  | cons _ _ => cases h
+
+theorem aux_simFlat (f : α → List β) : SimInv1 (flatMapC f) (aux_invFlat f) where
+  ready := by
+    intro pu buf pd su sd es k1 b ⟨h1, h2, h3, h4, h5⟩ he
+    obtain ⟨sent, hb, rfl, hk⟩ := drainR_shape he
+    have hso := aux_sent_ok h4 hb
+    refine ⟨_, _, rfl, run_drainTr_rdy sent b hso, h1, h2, ?_, ?_, ?_⟩
+    · intro hb' _; exact ⟨hb', hk hb'⟩
+    · intro hs; have := h4 hs; subst this
+      exact aux_rest_nil hb
+    · simp [← h5, hb]
+  send := by
+    intro pu buf pd su sd es k1 x ⟨h1, h2, h3, h4, h5⟩ hr hs he
+    simp only [flatMapC, emits_ret] at he
+    obtain ⟨rfl, rfl⟩ := he
+    have hbuf := (h3 hr hs).2; subst hbuf
+    have hps := aux_started_false h1 hs
+    refine ⟨[], pd, rfl, rfl, h1, h2, by simp, ?_, ?_⟩
+    · intro h; rw [hps] at h; cases h
+    · simpa [List.flatMap_append] using h5
+  fin := by
+    intro pu buf pd su sd es k1 b ⟨h1, h2, h3, h4, h5⟩ he
+    obtain ⟨es1, b1, he1, hcase⟩ := thenFin_shape he
+    obtain ⟨sent, hb, rfl, hk⟩ := drainR_shape he1
+    have hso := aux_sent_ok h4 hb
+    rcases hcase with ⟨rfl, rfl⟩ | ⟨rfl, rfl, rfl⟩
+    · have := hk rfl; subst this
+      refine ⟨drainTr sent ++ [Ev.rdy true] ++ [Ev.fin b],
+        { pd with ready := true, started := true, closed := pd.closed || b }, by simp [onPort], ?_, ?_⟩
+      · rw [PSt.run_append, run_drainTr_rdy sent true hso]; simp [PSt.run, PSt.step]
+      · refine ⟨fun _ => rfl, by simp [h2], by simp, fun _ => rfl, ?_⟩
+        simp [← h5, hb]
+    · refine ⟨_, _, rfl, run_drainTr_rdy sent false hso, fun h => by simpa using h1 h, by simp [h2], by simp, ?_, ?_⟩
+      · intro hs; have := h4 hs; subst this
+        exact aux_rest_nil hb
+      · simp [← h5, hb]
+
+/-- `FlatMap`: delivered = `flatMap f` of the inputs, in order, under every downstream pending
+    pattern; the buffered rest of an iterator survives `Pending`. -/
+theorem flatMap_sound (f : α → List β) :
+    (flatMapC f).Sound [] [0] (fun _ ins outs => outs = ins.flatMap f) :=
+  (aux_simFlat f).sound ⟨by simp, rfl, by simp, by simp, rfl⟩ (fun pu k pd su sd h hwf hc => by
+    obtain ⟨h1, h2, _, h4, h5⟩ := h
+    have hpc : pd.closed = true := by rw [h2]; exact hc
+    have := h4 (hwf hpc); subst this
+    exact ⟨hpc, by simpa using h5⟩)
+
+theorem flatten_sound : (flattenC (β := β)).Sound [] [0] (fun _ ins outs => outs = ins.flatMap id) :=
+  flatMap_sound id
+
+/-! ## Accumulate (fold / reduce / sort states) -/
+
+def aux_invAcc (step : S → α → S) (intoIter : S → List β) (st0 : S) : Inv1T (AccPhase S β) α β :=
+  fun pu k pd su sd =>
+    pd.closed = pu.closed ∧
+    match k with
+    | .acc st => pu.started = false ∧ pd.started = false ∧ sd = [] ∧ st = su.foldl step st0
+    | .draining st rest => pu.started = true ∧ pd.started = false ∧ st = su.foldl step st0 ∧ sd ++ rest = intoIter st
+    | .done st => pu.started = true ∧ pd.started = true ∧ st = su.foldl step st0 ∧ sd = intoIter st
+
+/-- the drain-then-finalize body of `Accumulate::poll_finalize` -/
+theorem aux_accGo {S β : Type} {st : S} {items : List β} {es : List (PEv β)} {k1 : AccPhase S β} {b : Bool}
+    (h : Emits ((drainR 0 items).bind fun r =>
+        if r.2 then Prog.fin 0 fun b => Prog.ret (AccPhase.done st, b) else Prog.ret (AccPhase.draining st r.1, false)) es (k1, b)) :
+    (es = onPort 0 (drainTr items ++ [Ev.rdy true] ++ [Ev.fin b]) ∧ k1 = .done st) ∨
+    (∃ sent rest, items = sent ++ rest ∧ es = onPort 0 (drainTr sent ++ [Ev.rdy false]) ∧ k1 = .draining st rest ∧ b = false) := by
+  simp only [emits_bind] at h
+  obtain ⟨es1, ⟨r1, ok⟩, es2, h1, h2, rfl⟩ := h
+  obtain ⟨sent, hl, rfl, hok⟩ := drainR_shape h1
+  cases ok with
+  | true =>
+    simp only [if_true, emits_fin, emits_ret] at h2
+    obtain ⟨b', es', rfl, rfl, hk⟩ := h2
+    cases hk
+    have := hok rfl; subst this
+    left; exact ⟨by simp [onPort, hl], rfl⟩
+  | false =>
+    simp only [Bool.false_eq_true, if_false, emits_ret] at h2
+    obtain ⟨rfl, hk⟩ := h2
+    cases hk
+    right; exact ⟨sent, r1, hl, by simp, rfl, rfl⟩
+
+theorem aux_simAcc (step : S → α → S) (intoIter : S → List β) (st0 : S) :
+    SimInv1 (accumulateC step intoIter) (aux_invAcc step intoIter st0) where
+  ready := by
+    intro pu k pd su sd es k1 b ⟨h1, h2⟩ he
+    simp only [accumulateC, emits_ret] at he
+    obtain ⟨rfl, hk⟩ := he
+    cases hk
+    exact ⟨[], pd, rfl, rfl, h1, by simpa using h2⟩
+  send := by
+    intro pu k pd su sd es k1 x ⟨h1, h2⟩ hr hs he
+    cases k with
+    | acc st =>
+      simp only [accumulateC, emits_ret] at he
+      obtain ⟨rfl, rfl⟩ := he
+      obtain ⟨_, h3, h4, h5⟩ := h2
+      exact ⟨[], pd, rfl, rfl, h1, hs, h3, by simpa using h4, by simp [h5, List.foldl_append]⟩
+    | draining st rest => rw [h2.1] at hs; cases hs
+    | done st => rw [h2.1] at hs; cases hs
+  fin := by
+    intro pu k pd su sd es k1 b ⟨h1, h2⟩ he
+    cases k with
+    | acc st =>
+      obtain ⟨_, h3, h4, h5⟩ := h2
+      subst h4
+      rcases aux_accGo he with ⟨rfl, rfl⟩ | ⟨sent, rest, hi, rfl, rfl, rfl⟩
+      · refine ⟨_, { pd with ready := true, started := true, closed := pd.closed || b }, rfl, ?_, by simp [h1], ?_⟩
+        · rw [PSt.run_append, run_drainTr_rdy _ true (Or.inr h3)]; simp [PSt.run, PSt.step]
+        · exact ⟨rfl, rfl, h5, by simp⟩
+      · exact ⟨_, _, rfl, run_drainTr_rdy sent false (Or.inr h3), by simp [h1], rfl, h3, h5, by simp [hi]⟩
+    | draining st rest0 =>
+      obtain ⟨_, h3, h5, h6⟩ := h2
+      rcases aux_accGo he with ⟨rfl, rfl⟩ | ⟨sent, rest, hi, rfl, rfl, rfl⟩
+      · refine ⟨_, { pd with ready := true, started := true, closed := pd.closed || b }, rfl, ?_, by simp [h1], ?_⟩
+        · rw [PSt.run_append, run_drainTr_rdy _ true (Or.inr h3)]; simp [PSt.run, PSt.step]
+        · exact ⟨rfl, rfl, h5, by simpa using h6⟩
+      · exact ⟨_, _, rfl, run_drainTr_rdy sent false (Or.inr h3), by simp [h1], rfl, h3, h5, by simp [← h6, hi]⟩
+    | done st =>
+      obtain ⟨_, h3, h5, h6⟩ := h2
+      simp only [accumulateC, emits_fin, emits_ret] at he
+      obtain ⟨b', es', rfl, rfl, hk⟩ := he
+      cases hk
+      exact ⟨[.fin b], { pd with started := true, closed := pd.closed || b }, rfl, by simp [PSt.run, PSt.step],
+        by simp [h1], rfl, rfl, h5, by simpa using h6⟩
+
+/-- `Accumulate<State, Next>`: nothing is sent before `poll_finalize`; at completion the downstream
+    has received `into_iter` of the state folded over all inputs, in order, exactly once — also when
+    the downstream pends in the middle of the drain or on `poll_finalize`. -/
+theorem accumulate_sound (step : S → α → S) (intoIter : S → List β) (st0 : S) :
+    (accumulateC step intoIter).Sound (.acc st0) [0] (fun _ ins outs => outs = intoIter (ins.foldl step st0)) :=
+  (aux_simAcc step intoIter st0).sound ⟨rfl, rfl, rfl, rfl, rfl⟩ (fun pu k pd su sd h hwf hc => by
+    obtain ⟨h1, h2⟩ := h
+    have hpc : pd.closed = true := by rw [h1]; exact hc
+    have hps := hwf hpc
+    cases k with
+    | acc st => rw [h2.2.1] at hps; cases hps
+    | draining st rest => rw [h2.2.1] at hps; cases hps
+    | done st => exact ⟨hpc, by rw [h2.2.2.2, h2.2.2.1]⟩)
+
+/-- fold: exactly one item, the fold of all inputs (the initial value when there are none) -/
+theorem fold_sound (comb : A → α → A) (a0 : A) :
+    (foldC comb).Sound (.acc a0) [0] (fun _ ins outs => outs = [ins.foldl comb a0]) :=
+  accumulate_sound comb (fun a => [a]) a0
+
+/-- reduce: nothing for no input and no initial value, otherwise the one reduced value -/
+theorem reduce_sound (comb : α → α → α) (init : Option α) :
+    (reduceC comb).Sound (.acc init) [0] (fun _ ins outs => outs = (ins.foldl (reduceStep comb) init).toList) :=
+  accumulate_sound (reduceStep comb) Option.toList init
+
+theorem aux_foldl_snoc (l ins : List α) : ins.foldl (fun l x => l ++ [x]) l = l ++ ins := by
+  induction ins generalizing l with
+  | nil => simp
+  | cons x xs ih => simp [ih]
+
+/-- sort (as `Accumulate<SortState>`): the sorted inputs -/
+theorem sortAcc_sound (le : α → α → Bool) :
+    (sortAccC le).Sound (.acc []) [0] (fun _ ins outs => outs = ins.mergeSort le) := by
+  have := accumulate_sound (fun l (x : α) => l ++ [x]) (fun l => l.mergeSort le) []
+  simpa only [sortAccC, aux_foldl_snoc, List.nil_append] using this
+
+/-! ## Sort (own struct) -/
+
+def aux_invSort (le : α → α → Bool) : Inv1T (SortSt α) α α := fun pu k pd su sd =>
+  pd.closed = pu.closed ∧
+  match pu.started with
+  | true => k.sorted = true ∧ sd ++ k.buf = su.mergeSort le ∧ (pd.started = true → k.buf = [])
+  | false => k.sorted = false ∧ k.buf = su ∧ sd = [] ∧ pd.started = false
+
+/-- body shared by `Sort` and the keyed combinators: drain `items`, then finalize -/
+theorem aux_drainFin {κ β : Type} {items : List β} {es : List (PEv β)} {mk : List β → κ} {kd k1 : κ} {b : Bool}
+    (h : Emits ((drain 0 items).bind fun r =>
+        if r.2 then Prog.fin 0 fun b => Prog.ret (kd, b) else Prog.ret (mk r.1, false)) es (k1, b)) :
+    (es = onPort 0 (drainTr items ++ [Ev.fin b]) ∧ k1 = kd) ∨
+    (∃ sent rest, items = sent ++ rest ∧ es = onPort 0 (drainTr sent ++ [Ev.rdy false]) ∧ k1 = mk rest ∧ b = false) := by
+  simp only [emits_bind] at h
+  obtain ⟨es1, ⟨r1, ok⟩, es2, h1, h2, rfl⟩ := h
+  obtain ⟨sent, hl, rfl, hok⟩ := drain_shape h1
+  cases ok with
+  | true =>
+    simp only [if_true, emits_fin, emits_ret] at h2
+    obtain ⟨b', es', rfl, rfl, hk⟩ := h2
+    cases hk
+    have := hok rfl; subst this
+    left; exact ⟨by simp [onPort, hl], rfl⟩
+  | false =>
+    simp only [Bool.false_eq_true, if_false, emits_ret] at h2
+    obtain ⟨rfl, hk⟩ := h2
+    cases hk
+    right; exact ⟨sent, r1, hl, by simp, rfl, rfl⟩
+
+theorem aux_simSort (le : α → α → Bool) : SimInv1 (sortC le) (aux_invSort le) where
+  ready := by
+    intro pu k pd su sd es k1 b ⟨h1, h2⟩ he
+    simp only [sortC, emits_ret] at he
+    obtain ⟨rfl, hk⟩ := he
+    cases hk
+    exact ⟨[], pd, rfl, rfl, h1, by simpa using h2⟩
+  send := by
+    intro pu k pd su sd es k1 x ⟨h1, h2⟩ hr hs he
+    simp only [sortC, emits_ret] at he
+    obtain ⟨rfl, rfl⟩ := he
+    simp only [hs] at h2
+    obtain ⟨_, h3, h4, h5⟩ := h2
+    refine ⟨[], pd, rfl, rfl, h1, ?_⟩
+    simp only [hs]
+    exact ⟨by simp, by simp [h3], by simpa using h4, h5⟩
+  fin := by
+    intro pu k pd su sd es k1 b ⟨h1, h2⟩ he
+    simp only [sortC] at he
+    have hitems : (if k.sorted = true then k.buf else k.buf.mergeSort le) ++ [] =
+        (if k.sorted = true then k.buf else k.buf.mergeSort le) := by simp
+    have key : sd ++ (if k.sorted = true then k.buf else k.buf.mergeSort le) = su.mergeSort le ∧
+        (pd.started = true → (if k.sorted = true then k.buf else k.buf.mergeSort le) = []) := by
+      cases hs : pu.started with
+      | true =>
+        simp only [hs] at h2
+        obtain ⟨h3, h4, h5⟩ := h2
+        simp [h3, h4]; exact h5
+      | false =>
+        simp only [hs] at h2
+        obtain ⟨h3, h4, h5, h6⟩ := h2
+        simp [h3, h4, h5, h6]
+    obtain ⟨hk1, hk2⟩ := key
+    rcases aux_drainFin (mk := fun r => (⟨r, true⟩ : SortSt α)) he with ⟨rfl, rfl⟩ | ⟨sent, rest, hi, rfl, rfl, rfl⟩
+    · have hso := aux_sent_ok hk2 hitems.symm
+      refine ⟨_, _, rfl, run_drainTr_fin _ b hso, by simp [h1], ?_⟩
+      simp only
+      exact ⟨trivial, by simpa using hk1, fun _ => trivial⟩
+    · have hso := aux_sent_ok hk2 hi
+      refine ⟨_, _, rfl, run_drainTr_rdy sent false hso, by simp [h1], ?_⟩
+      simp only
+      refine ⟨trivial, by simp [← hk1, hi], ?_⟩
+      intro hs; have := hk2 hs; rw [this] at hi; exact aux_rest_nil hi
+
+/-- `Sort`: the sorted inputs, exactly once, nothing before `poll_finalize`. -/
+theorem sort_sound (le : α → α → Bool) :
+    (sortC le).Sound ⟨[], false⟩ [0] (fun _ ins outs => outs = ins.mergeSort le) :=
+  (aux_simSort le).sound ⟨rfl, rfl, rfl, rfl, rfl⟩ (fun pu k pd su sd h hwf hc => by
+    obtain ⟨h1, h2⟩ := h
+    have hpc : pd.closed = true := by rw [h1]; exact hc
+    have hps := hwf hpc
+    cases hs : pu.started with
+    | true =>
+      simp only [hs] at h2
+      have := h2.2.2 hps
+      exact ⟨hpc, by simpa [this] using h2.2.1⟩
+    | false =>
+      simp only [hs] at h2
+      rw [h2.2.2.2] at hps; cases hps)
+
+/-! ## FoldKeyed / ReduceKeyed -/
+
+/-- the map after the inputs: `entry(k).or_insert_with(init)` then `comb`, in arrival order -/
+def keyedMap [DecidableEq K] (ins : V → A) (upd : A → V → A) (m0 : List (K × A)) (xs : List (K × V)) : List (K × A) :=
+  xs.foldl (fun m x => upsert ins upd m x.1 x.2) m0
+
+def aux_invKeyed [DecidableEq K] (ins : V → A) (upd : A → V → A) (order : List (K × A) → List (K × A))
+    (m0 : List (K × A)) : Inv1T (KeyedSt K A) (K × V) (K × A) := fun pu k pd su sd =>
+  pd.closed = pu.closed ∧ k.map = keyedMap ins upd m0 su ∧
+  match pu.started with
+  | true => k.idx = 1 ∧ sd ++ k.flush = order k.map ∧ (pd.started = true → k.flush = [])
+  | false => k.flush = [] ∧ k.idx = 0 ∧ sd = [] ∧ pd.started = false
+
+theorem aux_simKeyed [DecidableEq K] (ins : V → A) (upd : A → V → A) (order : List (K × A) → List (K × A))
+    (m0 : List (K × A)) : SimInv1 (keyedC ins upd order) (aux_invKeyed ins upd order m0) where
+  ready := by
+    intro pu k pd su sd es k1 b ⟨h1, hm, h2⟩ he
+    simp only [keyedC, emits_ret] at he
+    obtain ⟨rfl, hk⟩ := he
+    cases hk
+    exact ⟨[], pd, rfl, rfl, h1, hm, by simpa using h2⟩
+  send := by
+    intro pu k pd su sd es k1 x ⟨h1, hm, h2⟩ hr hs he
+    simp only [keyedC, emits_ret] at he
+    obtain ⟨rfl, rfl⟩ := he
+    simp only [hs] at h2
+    obtain ⟨h3, h4, h5, h6⟩ := h2
+    refine ⟨[], pd, rfl, rfl, h1, by simp [keyedMap, List.foldl_append, hm], ?_⟩
+    simp only [hs]
+    exact ⟨h3, h4, by simpa using h5, h6⟩
+  fin := by
+    intro pu k pd su sd es k1 b ⟨h1, hm, h2⟩ he
+    simp only [keyedC] at he
+    -- the state after the "collect on first call" step
+    have key : ∃ kk : KeyedSt K A,
+        (if (k.flush.isEmpty && k.idx == 0) = true then { k with flush := order k.map, idx := 1 } else k) = kk ∧
+        kk.map = k.map ∧ kk.idx = 1 ∧ sd ++ kk.flush = order k.map ∧ (pd.started = true → kk.flush = []) := by
+      cases hs : pu.started with
+      | true =>
+        simp only [hs] at h2
+        obtain ⟨h3, h4, h5⟩ := h2
+        exact ⟨k, by simp [h3], rfl, h3, h4, h5⟩
+      | false =>
+        simp only [hs] at h2
+        obtain ⟨h3, h4, h5, h6⟩ := h2
+        exact ⟨{ k with flush := order k.map, idx := 1 }, by simp [h3, h4], rfl, rfl, by simp [h5], by simp [h6]⟩
+    obtain ⟨kk, hkk, hk0, hk1, hk2, hk3⟩ := key
+    rw [hkk] at he
+    have hitems : kk.flush = kk.flush ++ [] := by simp
+    rcases aux_drainFin (mk := fun r => ({ kk with flush := r } : KeyedSt K A)) he with
+      ⟨rfl, rfl⟩ | ⟨sent, rest, hi, rfl, rfl, rfl⟩
+    · have hso := aux_sent_ok hk3 hitems
+      refine ⟨_, _, rfl, run_drainTr_fin _ b hso, by simp [h1], by simpa [hk0] using hm, ?_⟩
+      simp only
+      exact ⟨hk1, by simpa [hk0] using hk2, fun _ => trivial⟩
+    · have hso := aux_sent_ok hk3 hi
+      refine ⟨_, _, rfl, run_drainTr_rdy sent false hso, by simp [h1], by simpa [hk0] using hm, ?_⟩
+      simp only
+      refine ⟨hk1, by simp [hk0, ← hk2, hi], ?_⟩
+      intro hs; have := hk3 hs; rw [this] at hi; exact aux_rest_nil hi
+
+/-- `FoldKeyed` / `ReduceKeyed` (external map `m0`, hash iteration order `order`): nothing is sent
+    before `poll_finalize`; at completion the downstream has received the entries of the final map,
+    each exactly once (in the order `order` lists them) — also when `poll_finalize` is polled again
+    after a `Pending`, and (since the F123 fix) when it is polled again after `Done`. -/
+theorem keyed_sound [DecidableEq K] (ins : V → A) (upd : A → V → A) (order : List (K × A) → List (K × A))
+    (m0 : List (K × A)) :
+    (keyedC ins upd order).Sound ⟨m0, [], 0⟩ [0] (fun _ xs outs => outs = order (keyedMap ins upd m0 xs)) :=
+  (aux_simKeyed ins upd order m0).sound ⟨rfl, rfl, rfl, rfl, rfl, rfl⟩ (fun pu k pd su sd h hwf hc => by
+    obtain ⟨h1, hm, h2⟩ := h
+    have hpc : pd.closed = true := by rw [h1]; exact hc
+    have hps := hwf hpc
+    cases hs : pu.started with
+    | true =>
+      simp only [hs] at h2
+      have := h2.2.2 hps
+      exact ⟨hpc, by simpa [this, hm] using h2.2.1⟩
+    | false =>
+      simp only [hs] at h2
+      rw [h2.2.2.2] at hps; cases hps)
+
+theorem foldKeyed_sound [DecidableEq K] (init : A) (comb : A → V → A) (order : List (K × A) → List (K × A))
+    (m0 : List (K × A)) :
+    (foldKeyedC init comb order).Sound ⟨m0, [], 0⟩ [0]
+      (fun _ xs outs => outs = order (keyedMap (fun v => comb init v) comb m0 xs)) :=
+  keyed_sound _ _ order m0
+
+theorem reduceKeyed_sound [DecidableEq K] (comb : V → V → V) (order : List (K × V) → List (K × V))
+    (m0 : List (K × V)) :
+    (reduceKeyedC comb order).Sound ⟨m0, [], 0⟩ [0]
+      (fun _ xs outs => outs = order (keyedMap (fun v => v) comb m0 xs)) :=
+  keyed_sound _ _ order m0
+
+/-! ## Persist -/
+
+theorem aux_drop_suffix {l s r : List α} {i : Nat} (h : l.drop i = s ++ r) : l.drop (l.length - r.length) = r := by
+  obtain ⟨a, ha⟩ : ∃ a, l = a ++ r := ⟨l.take i ++ s, by rw [List.append_assoc, ← h, List.take_append_drop]⟩
+  subst ha
+  simp
+
+theorem aux_drop_snoc_nil {l : List α} {i : Nat} (x : α) (h : l.drop i = []) : (l ++ [x]).drop (i + 1) = [] := by
+  rw [List.drop_eq_nil_iff] at h ⊢
+  simp; omega
+
+theorem aux_emptyReplay {k k1 : PersistSt α} {es : List (PEv α)} {ok : Bool}
+    (h : Emits (emptyReplay k) es (k1, ok)) :
+    ∃ sent rest, k.buf.drop k.idx = sent ++ rest ∧
+      es = onPort 0 (drainTr sent ++ (if ok then [] else [Ev.rdy false])) ∧
+      k1.buf = k.buf ∧ k1.buf.drop k1.idx = rest ∧ (ok = true → rest = []) := by
+  simp only [emptyReplay, emits_bind, emits_ret] at h
+  obtain ⟨es1, ⟨r1, ok1⟩, es2, h1, ⟨rfl, hk⟩, rfl⟩ := h
+  cases hk
+  obtain ⟨sent, hl, rfl, hok⟩ := drain_shape h1
+  exact ⟨sent, r1, hl, by simp, rfl, aux_drop_suffix hl, hok⟩
+
+def aux_invPersist (buf0 : List α) (idx0 : Nat) : Inv1T (PersistSt α) α α := fun pu k pd su sd =>
+  (pd.started = true → pu.started = true) ∧ pd.closed = pu.closed ∧ k.buf = buf0 ++ su ∧
+  sd ++ k.buf.drop k.idx = buf0.drop idx0 ++ su ∧
+  (pu.ready = true → pu.started = false → pd.ready = true ∧ k.buf.drop k.idx = []) ∧
+  (pd.started = true → k.buf.drop k.idx = [])
+
+theorem aux_simPersist (buf0 : List α) (idx0 : Nat) : SimInv1 persistC (aux_invPersist buf0 idx0) where
+  ready := by
+    intro pu k pd su sd es k1 b ⟨h1, h2, hb, h3, h4, h5⟩ he
+    simp only [persistC, emits_bind] at he
+    obtain ⟨es1, ⟨r1, ok⟩, es2, he1, he2, rfl⟩ := he
+    obtain ⟨sent, rest, hd, rfl, hbuf, hrest, hok⟩ := aux_emptyReplay he1
+    have hso := aux_sent_ok h5 hd
+    cases ok with
+    | true =>
+      simp only [if_true, emits_rdy, emits_ret] at he2
+      obtain ⟨b', es', rfl, rfl, hk⟩ := he2
+      cases hk
+      have := hok rfl; subst this
+      refine ⟨drainTr sent ++ [Ev.rdy b], _, by simp [onPort], run_drainTr_rdy sent b hso, h1, h2, by rw [hbuf, hb], ?_, ?_, ?_⟩
+      · rw [hrest]; simp [← h3, hd]
+      · intro hb' _; exact ⟨hb', hrest⟩
+      · intro _; exact hrest
+    | false =>
+      simp only [Bool.false_eq_true, if_false, emits_ret] at he2
+      obtain ⟨rfl, hk⟩ := he2
+      cases hk
+      refine ⟨drainTr sent ++ [Ev.rdy false], _, by simp, run_drainTr_rdy sent false hso, h1, h2, by rw [hbuf, hb], ?_, by simp, ?_⟩
+      · rw [hrest]; simp [← h3, hd]
+      · intro hs; have := h5 hs; rw [this] at hd; rw [hrest]; exact aux_rest_nil hd
+  send := by
+    intro pu k pd su sd es k1 x ⟨h1, h2, hb, h3, h4, h5⟩ hr hs he
+    simp only [persistC, emits_snd, emits_ret] at he
+    obtain ⟨es', rfl, rfl, rfl⟩ := he
+    obtain ⟨hpr, hdn⟩ := h4 hr hs
+    have hps := aux_started_false h1 hs
+    refine ⟨[.snd x], { pd with ready := false }, rfl, by simp [PSt.run, PSt.step, hpr, hps], h1, h2, by simp [hb], ?_, by simp, ?_⟩
+    · rw [aux_drop_snoc_nil x hdn]; rw [hdn] at h3; simp at h3; simp [h3]
+    · intro _; exact aux_drop_snoc_nil x hdn
+  fin := by
+    intro pu k pd su sd es k1 b ⟨h1, h2, hb, h3, h4, h5⟩ he
+    obtain ⟨es1, b1, he1, hcase⟩ := thenFin_shape he
+    obtain ⟨sent, rest, hd, rfl, hbuf, hrest, hok⟩ := aux_emptyReplay he1
+    have hso := aux_sent_ok h5 hd
+    rcases hcase with ⟨rfl, rfl⟩ | ⟨rfl, rfl, rfl⟩
+    · have := hok rfl; subst this
+      refine ⟨drainTr sent ++ [Ev.fin b], _, by simp [onPort], run_drainTr_fin sent b hso, fun _ => rfl, by simp [h2],
+        by rw [hbuf, hb], ?_, by simp, fun _ => hrest⟩
+      rw [hrest]; simp [← h3, hd]
+    · refine ⟨drainTr sent ++ [Ev.rdy false], _, by simp, run_drainTr_rdy sent false hso, fun h => by simpa using h1 h,
+        by simp [h2], by rw [hbuf, hb], ?_, by simp, ?_⟩
+      · rw [hrest]; simp [← h3, hd]
+      · intro hs; have := h5 hs; rw [this] at hd; rw [hrest]; exact aux_rest_nil hd
+
+/-- `Persist`: with `replay` the stored items are delivered first, then the new ones, each exactly
+    once and in order, whatever the downstream pending pattern during the replay; without `replay`
+    only the new items. -/
+theorem persist_sound (buf0 : List α) (replay : Bool) :
+    persistC.Sound (PersistSt.new buf0 replay) [0]
+      (fun _ ins outs => outs = (if replay then buf0 else []) ++ ins) := by
+  have h := (aux_simPersist buf0 (PersistSt.new buf0 replay).idx).sound
+    (k0 := PersistSt.new buf0 replay) (spec := fun ins outs => outs = (if replay then buf0 else []) ++ ins)
+    ⟨by simp, rfl, by simp [PersistSt.new], by simp [PersistSt.new], by simp, by simp⟩
+    (fun pu k pd su sd h hwf hc => by
+      obtain ⟨h1, h2, hb, h3, _, h5⟩ := h
+      have hpc : pd.closed = true := by rw [h2]; exact hc
+      rw [h5 (hwf hpc)] at h3
+      refine ⟨hpc, ?_⟩
+      cases replay <;> simpa [PersistSt.new] using h3)
+  exact h
+
+/-- ... and the external buffer ends up holding the old items followed by every new item. -/
+theorem persist_buffer (buf0 : List α) (replay : Bool) {up : List (Ev α)} {down : List (PEv α)} {k' : PersistSt α}
+    (ht : persistC.Tr (PersistSt.new buf0 replay) up down k') (hok : ProtoOk up) :
+    k'.buf = buf0 ++ sends up := by
+  obtain ⟨pu, pd, _, hi⟩ := (aux_simPersist buf0 (PersistSt.new buf0 replay).idx).reach
+    ⟨by simp, rfl, by simp [PersistSt.new], by simp [PersistSt.new], by simp, by simp⟩ ht hok
+  exact hi.2.2.1
+
+/-! ## Inspect, ForEach / VecPush -/
+
+def aux_invInspect : Inv1T (List α) α α := fun pu k pd su sd =>
+  (pd.started = true → pu.started = true) ∧ pd.closed = pu.closed ∧
+  (pu.ready = true → pu.started = false → pd.ready = true) ∧ sd = su ∧ k = su
+
+theorem aux_simInspect : SimInv1 (inspectC (α := α)) aux_invInspect where
+  ready := by
+    intro pu k pd su sd es k1 b ⟨h1, h2, h3, h4, h5⟩ he
+    simp only [inspectC, emits_rdy, emits_ret] at he
+    obtain ⟨b', es', rfl, rfl, hk⟩ := he
+    cases hk
+    exact ⟨[.rdy b], { pd with ready := b }, rfl, by simp [PSt.run, PSt.step], ⟨h1, h2, fun h _ => h, by simpa using h4, h5⟩⟩
+  send := by
+    intro pu k pd su sd es k1 x ⟨h1, h2, h3, h4, h5⟩ hr hs he
+    simp only [inspectC, emits_snd, emits_ret] at he
+    obtain ⟨es', rfl, rfl, rfl⟩ := he
+    have hpr := h3 hr hs
+    have hps := aux_started_false h1 hs
+    exact ⟨[.snd x], { pd with ready := false }, rfl, by simp [PSt.run, PSt.step, hpr, hps],
+      ⟨h1, h2, by simp, by simp [h4], by simp [h5]⟩⟩
+  fin := by
+    intro pu k pd su sd es k1 b ⟨h1, h2, h3, h4, h5⟩ he
+    simp only [inspectC, emits_fin, emits_ret] at he
+    obtain ⟨b', es', rfl, rfl, hk⟩ := he
+    cases hk
+    exact ⟨[.fin b], { pd with started := true, closed := pd.closed || b }, rfl, by simp [PSt.run, PSt.step],
+      ⟨fun _ => rfl, by simp [h2], by simp, by simpa using h4, h5⟩⟩
+
+/-- `Inspect`: items pass unchanged and in order -/
+theorem inspect_sound : (inspectC (α := α)).Sound [] [0] (fun _ ins outs => outs = ins) :=
+  aux_simInspect.sound ⟨by simp, rfl, by simp, rfl, rfl⟩ (fun pu k pd su sd h _ hc => ⟨by rw [h.2.1]; exact hc, h.2.2.2.1⟩)
+
+/-- ... and the closure has seen exactly the items, in order -/
+theorem inspect_observed {up : List (Ev α)} {down : List (PEv α)} {k' : List α}
+    (ht : (inspectC (α := α)).Tr [] up down k') (hok : ProtoOk up) : k' = sends up := by
+  obtain ⟨pu, pd, _, hi⟩ := aux_simInspect.reach ⟨by simp, rfl, by simp, rfl, rfl⟩ ht hok
+  exact hi.2.2.2.2
+
+/-- `ForEach` / `VecPush`: always ready, never pending, no downstream; the closure / vector has
+    received every item in order (after what the vector held before). -/
+theorem collect_sound (k0 : List α) {up : List (Ev α)} {down : List (PEv α)} {k' : List α}
+    (ht : (collectC (α := α)).Tr k0 up down k') :
+    k' = k0 ++ sends up ∧ down = [] ∧ (∀ e ∈ up, e ≠ .rdy false ∧ e ≠ .fin false) := by
+  induction ht with
+  | nil k => simp
+  | rdy he _ ih =>
+    simp only [collectC, emits_ret] at he
+    obtain ⟨rfl, hk⟩ := he
+    cases hk
+    obtain ⟨h1, h2, h3⟩ := ih
+    refine ⟨by simpa using h1, by simpa using h2, ?_⟩
+    intro e he
+    rcases List.mem_cons.1 he with rfl | he
+    · simp
+    · exact h3 e he
+  | snd he _ ih =>
+    simp only [collectC, emits_ret] at he
+    obtain ⟨rfl, rfl⟩ := he
+    obtain ⟨h1, h2, h3⟩ := ih
+    refine ⟨by simp [h1], by simpa using h2, ?_⟩
+    intro e he
+    rcases List.mem_cons.1 he with rfl | he
+    · simp
+    · exact h3 e he
+  | fin he _ ih =>
+    simp only [collectC, emits_ret] at he
+    obtain ⟨rfl, hk⟩ := he
+    cases hk
+    obtain ⟨h1, h2, h3⟩ := ih
+    refine ⟨by simpa using h1, by simpa using h2, ?_⟩
+    intro e he
+    rcases List.mem_cons.1 he with rfl | he
+    · simp
+    · exact h3 e he
 
 end HvPush
